@@ -65,6 +65,8 @@ def _case(draw):
         "mshocks": [list(x) for x in mshocks],
         "split": draw(st.integers(1, 11)),
         "split_frames": draw(st.sampled_from([False, False, True])),
+        # a Kalman filter run with anticipated shock values in the data, earlier on the same model object
+        "kalman_warmup": draw(st.one_of(st.none(), st.none(), st.tuples(st.integers(0, n - 1), st.integers(0, 5), val, st.integers(2, 8)).map(list))),
     }
 
 
@@ -76,6 +78,8 @@ def _classify(case):
               "deviation" if case["deviation"] else "levels"]
     if case.get("split_frames"):
         labels.append("force_split_frames")
+    if case.get("kalman_warmup") and spec["meas"]:
+        labels.append("kalman_filter_before")
     if a:
         labels.append("has_anticipated")
     if len({x[1] for x in u}) >= 2:
@@ -206,6 +210,19 @@ def _check(case):
         dbw = sd.steady_db(m, spec, start, -Lmax, wN + Fmax, wdev)
         dbw["ant_" + shn_all[wi % spec["n"]]][start + wtau] = wval
         api("simulate_warmup", m.simulate, dbw, start >> (start + wN - 1), method="first_order", deviation=wdev)
+
+    kw_ = case.get("kalman_warmup")
+    if kw_ and spec["meas"] and shn_all[kw_[0] % spec["n"]]:
+        wi, wtau, wval, wN = kw_
+        dbk = ir.Databox()
+        for k, nm in enumerate(lm.meas_names(spec)):
+            base_ = float(math.exp(ys[k])) if spec["log"] else float(ys[k])
+            dbk[nm] = ir.Series(start=start, values=tuple(base_ * (1.0 + 0.01 * ((t + k) % 3)) if spec["log"] else base_ + 0.1 * ((t + k) % 3 - 1) for t in range(wN)))
+        dbk["ant_" + shn_all[wi % spec["n"]]] = ir.Series(start=start, values=tuple(wval if t == min(wtau, wN - 1) else 0.0 for t in range(wN)))
+        try:
+            m.kalman_filter(dbk, start >> (start + wN - 1), shocks_from_data=True)
+        except Exception:  # noqa: BLE001 - the filter is judged by C03/C08 (singular cases raise); only its side effects matter here
+            pass
 
     db = make_db(dev)
     span = start >> (start + T - 1)
@@ -437,7 +454,111 @@ def _check_growth(case):
     return {"labels": ["judged"], "nontrivial": True}
 
 
+# ---------------------------------------------------------------------------
+# Parameter variants: one simulation of a two-variant model, each variant judged by its own equations
+# ---------------------------------------------------------------------------
+
+@st.composite
+def _variants_case(draw):
+    spec = draw(lm.spec_strategy(max_n=3, allow_params=True))
+    if not spec["params"]:
+        # turn one transition coefficient into a parameter (plain-data edit of the drawn spec)
+        slots = [(i, ti) for i, e in enumerate(spec["eqs"]) for ti, t in enumerate(e["terms"]) if len(t) == 3]
+        if slots:
+            i, ti = slots[draw(st.integers(0, len(slots) - 1))]
+            spec["eqs"][i]["terms"][ti].append(0)
+            spec["params"].append({"name": "p0", "value": spec["eqs"][i]["terms"][ti][2]})
+    n = spec["n"]
+    N = draw(st.integers(1, 8))
+    val = st.sampled_from([1.0, -1.0, 0.5, -0.3, 0.2])
+    return {"spec": spec, "N": N, "deviation": draw(st.booleans()),
+            "pmul": draw(st.sampled_from([0.5, 0.8, 1.2, 0.9])),
+            "const_shift": draw(st.sampled_from([0.0, 0.3, -0.2])),
+            "ushocks": [list(x) for x in draw(st.lists(st.tuples(st.integers(0, n - 1), st.just(0), val), min_size=1, max_size=2))],
+            "ashocks": [list(x) for x in draw(st.lists(st.tuples(st.integers(0, n - 1), st.integers(0, N - 1), val), max_size=2))]}
+
+
+def _variant_specs(case):
+    """(two-variant spec, [single-variant specs]); parameters scaled by pmul in the second variant."""
+    import copy
+    spec2 = copy.deepcopy(case["spec"])
+    for p in spec2["params"]:
+        p["value"] = [p["value"], round(p["value"] * case["pmul"], 6)]
+    singles = []
+    for v in range(2):
+        sv = copy.deepcopy(case["spec"])
+        for p, p2 in zip(sv["params"], spec2["params"]):
+            p["value"] = p2["value"][v]
+        singles.append(sv)
+    return spec2, singles
+
+
+def _classify_variants(case):
+    spec = case["spec"]
+    labels = ["log_rendering" if spec["log"] else "additive_rendering", "deviation" if case["deviation"] else "levels"]
+    if spec["params"]:
+        labels.append("parameters_differ_across_variants")
+    return bool(spec["params"]), labels
+
+
+def _check_variants(case):
+    ir = _ir()
+    col = Collector()
+    if not case["spec"]["params"]:
+        return {"labels": ["no_parameter"], "nontrivial": False}
+    spec2, singles = _variant_specs(case)
+    for sv in singles:
+        if lm.classify(sv)[0] != "determinate" or lm.steady(sv)[0] is None:
+            return {"labels": ["model_not_in_domain"], "nontrivial": False}
+    m = api("build_and_solve_two_variants", lm.build_model, spec2, variant_count=2)
+    start = ir.qq(2020, 1)
+    spec = case["spec"]
+    Lmax, Fmax = lm.max_lag_lead(spec)
+    Lmax = max(Lmax, 1)
+    N, dev = case["N"], case["deviation"]
+    T = N + TAIL
+    span = start >> (start + T - 1)
+    ush, ash = sd.effective_shocks(spec, case["ushocks"], case["ashocks"])
+    res = {}
+    for d_ in (dev, not dev):
+        db = sd.steady_db(m, spec, start, -Lmax, T + Fmax, d_)
+        sd.apply_shocks(db, spec, start, ush, ash)
+        res[d_] = api("simulate", m.simulate, db, span, method="first_order", deviation=d_)
+    differ = False
+    for v, sv in enumerate(singles):
+        xs, ys = lm.steady(sv)
+        p = sd.Paths(res[dev], sv, start, -Lmax, T - 1, variant=v)
+        scale = 1.0 + _maxabs(p, sv)
+        tol = 1e-8 * scale
+        get = sd.getter(p, sv, unanticipated_only_at=0)
+        worst, where = 0.0, None
+        for t in range(0, T - Fmax):
+            for i, ri in enumerate(lm.residuals(sv, get, t, deviation=dev)):
+                if not (abs(ri) <= worst):
+                    worst, where = abs(ri), (i, t)
+        col.check(worst <= tol, "variants:equations_residual",
+                  lambda: f"variant {v}: equation {where[0]} at t={where[1]} residual {worst:.3e} > {tol:.1e} (deviation={dev})\n{lm.source(sv)}")
+        if sv["meas"]:
+            getm = sd.getter(p, sv)
+            wm = max((abs(ri) for t in range(0, T) for ri in lm.residuals(sv, getm, t, deviation=dev, which="measurement")), default=0.0)
+            col.check(wm <= tol, "variants:measurement_residual", lambda: f"variant {v}: measurement residual {wm:.3e}\n{lm.source(sv)}")
+        po = sd.Paths(res[not dev], sv, start, -Lmax, T - 1, variant=v)
+        lev, dv = (po, p) if dev else (p, po)
+        for nm, ss in [(nm, xs[j]) for j, nm in enumerate(sv["names"])] + [(nm, ys[k]) for k, nm in enumerate(lm.meas_names(sv))]:
+            a, d = lev.arr(nm)[Lmax:], dv.arr(nm)[Lmax:]
+            diff = np.abs(np.log(a) - (ss + np.log(d))) if sv["log"] else np.abs(a - (ss + d))
+            w = float(np.max(diff)) if diff.size else 0.0
+            col.check(w <= 1e-8 * scale, "variants:levels_vs_deviation",
+                      lambda: f"variant {v}, {nm}: level path differs from that variant's steady state combined with its deviation path by {w:.3e}\n{lm.source(sv)}")
+        if v == 1:
+            x0, _ = lm.steady(singles[0])
+            differ = bool(np.max(np.abs(np.asarray(xs) - np.asarray(x0))) > 1e-6)
+    col.done()
+    return {"labels": ["steady_states_differ"] if differ else ["steady_states_equal"], "nontrivial": True}
+
+
 SUBCHECKS = [
     HypSub("first_order", _case, _check, _classify, budget={"quick": 1200, "thorough": 24000}),
     HypSub("growth", _growth_case, _check_growth, _classify_growth, budget={"quick": 400, "thorough": 8000}),
+    HypSub("variants", _variants_case, _check_variants, _classify_variants, budget={"quick": 300, "thorough": 8000}),
 ]
